@@ -157,6 +157,10 @@ def preemption_family(ctx, uni, mp, thorough):
                                     mp.stream_for(g, (5 + salt) % q, redraws=1), mp.stream_for(g, (7 + 3 * salt) % q),
                                     restoreA=1, restoreB=0))
             return script, box
+        # measured on a second, warm run: the preempted runs that follow are warm too (whatever the library caches)
+        s0, b0 = mk("preempt/%s+%s/first" % (ps1, ps2), ps1, g1, q1, pairing1, 1)
+        s0()
+        out.append(b0[0].json())
         s1, b1 = mk("preempt/%s+%s/alone" % (ps1, ps2), ps1, g1, q1, pairing1, 1)
         lines = preempt.trace_lines(s1)
         out.append(b1[0].json())
